@@ -33,6 +33,8 @@ type task struct {
 	spawnN    map[string]int
 	adopted   bool
 	blockedAt string // site of last pre-block yield (diagnostics)
+	pcs       [16]uintptr // call stack of the park site (only with Sim.TrackFrames)
+	npc       int
 }
 
 // Event is an environment event the scheduler may fire at any step while
@@ -94,6 +96,8 @@ type Sim struct {
 	rootSpawn map[string]int
 
 	Invariant func() // checked after every step
+	// TrackFrames records the call stack at every park (for ParkedInFunc)
+	TrackFrames bool
 
 	// BusyMaxQ (>0) caps the time quantum (index into the ladder) that may be
 	// chosen while tasks are runnable, so that scheduler-induced starvation adds
@@ -246,12 +250,44 @@ func Yield(site string) {
 	if t.lockDepth > 0 {
 		return
 	}
+	if s.TrackFrames {
+		t.npc = runtime.Callers(2, t.pcs[:])
+	}
 	s.mu.Lock()
 	t.state = tsParked
 	t.site = site
 	s.mu.Unlock()
 	s.notify()
 	<-t.resume
+}
+
+// ParkedInFunc reports whether the named task is parked at a scheduling point
+// whose call stack contains a function whose name contains substr. It lets an
+// oracle ask "has this task entered registerEndpoint yet" without depending on
+// line numbers of the instrumented source. Needs Sim.TrackFrames.
+func (s *Sim) ParkedInFunc(taskName, substr string) bool {
+	s.mu.Lock()
+	var t *task
+	for _, x := range s.all {
+		if x.name == taskName && x.state == tsParked {
+			t = x
+			break
+		}
+	}
+	s.mu.Unlock()
+	if t == nil || t.npc == 0 {
+		return false
+	}
+	fr := runtime.CallersFrames(t.pcs[:t.npc])
+	for {
+		f, more := fr.Next()
+		if strings.Contains(f.Function, substr) {
+			return true
+		}
+		if !more {
+			return false
+		}
+	}
 }
 
 // adopt registers a goroutine that was not started through Go (a callback run by
